@@ -681,9 +681,16 @@ pub fn config(i: usize) -> (&'static str, Params) {
             p.legacy_api = true;
             "older-entry-points"
         }
-        _ => {
+        9 => {
             p.churn = true;
             "set-remove-set"
+        }
+        _ => {
+            // the fee itself sits at the 2^16 boundary of its CBOR width: 65 200 + 1 per byte crosses
+            // 65 535 | 65 536 at a size of 336 bytes, inside the range of the transactions built here
+            p.fee_a = 1;
+            p.fee_b = 65_200;
+            "fee-at-the-2^16-width-boundary"
         }
     };
     (name, p)
@@ -1115,9 +1122,9 @@ pub fn configs_for(prop: &str, tier: Tier) -> Vec<usize> {
     match prop {
         "C05" | "C06" | "C07" | "C03" => {
             if tier.thorough() {
-                vec![0, 1, 2, 3, 4, 5, 6, 7, 8, 9]
+                vec![0, 1, 2, 3, 4, 5, 6, 7, 8, 9, 10]
             } else {
-                vec![0, 1, 2, 3, 5, 6, 8, 9]
+                vec![0, 1, 2, 3, 5, 6, 8, 9, 10]
             }
         }
         "C18" => vec![0, 5, 8],
